@@ -12,16 +12,16 @@ RULE = ('cases: ep.get/ep.getatmost style stream script n (source_get_chunk[_atm
         'transfers.  Non-trivial: script non-empty or N > 1.')
 TRUSTED_BASE = TB_COMMON + ['Model/Endpoints.v hand-written from src/endpoints/core.c; tie = correspondence']
 ASSUMPTIONS = ['a driver never returns more than it was asked for and never a positive count without data',
-               'single-octet calls (source_get_octet / sink_put_octet, hence sts_cbc and the per-octet plumbing) whose driver returns 0 are outside the modelled domain: the library passes the 0 on and the caller would use an unset octet',
+               'source_get_octet / sink_put_octet themselves pass a 0 answer of the driver on (their callers decide); sts_cbc and the plumbing built on it repeat such a call (fix 264994e)',
                'the getbuffer extension paths of sts_atmost/sts_n/sts_drain are not modelled: no endpoint in the library implements the extension',
                'auxiliary buffers are passed empty (used = offset = 0)']
 EXHAUSTIVE = {'quick': False, 'thorough': False}
 TECHNIQUE = 'Coq proof (exact-transfer theorems for scripted drivers by induction over scripts with fuel adequacy) + correspondence over exhaustive short scripts and random long ones'
 LEVEL_TEXT = ('Theorems in Properties_C17.v about Model/Endpoints.v for EVERY driver script (Give k / 0 / EINTR / EAGAIN / hard error), octet- and chunk-style drivers: get/put of N octets deliver exactly the next N octets in order '
               '(delivered ++ remaining = stream; what reached the sink is a prefix), EINTR/EAGAIN never surface, hard errors are returned, invalid counts are refused without a driver call, the at-most variants never exceed the request; '
-              'all retry loops terminate (the fuel of the model is proved adequate); the per-octet, counted and draining source-to-sink plumbing without auxiliary buffer moves exactly n / everything in order or returns an error with a '
-              'prefix in the sink (at most the octet in flight lost), and terminates, for every source script and every sink that accepts or fails hard.  Correspondence only (partial): plumbing with an auxiliary buffer; sinks that '
-              'return 0/EINTR/EAGAIN on a single octet inside the plumbing (outside the stated domain).')
+              'all retry loops terminate (the fuel of the model is proved adequate); the per-octet, fixed-count, counted and draining source-to-sink plumbing, without and with an auxiliary buffer, moves exactly n / everything in order or returns an error with a '
+              'prefix in the sink (at most the octet - or the scratch-buffer load - in flight lost), writes only the start of the scratch image, and terminates, for EVERY source script and EVERY sink script (zero-length answers, EINTR/EAGAIN, '
+              'hard errors on either side).')
 LEVEL_NOTE = 'Trusted: Coq kernel; hand model of endpoints/core.c (correspondence-tested); harness with scripted drivers. Partial: getbuffer-extension paths not modelled. No axioms.'
 
 EV = [1, 2, 3, 99, 0, -4, -11, -5, -12]
@@ -50,6 +50,21 @@ def gen(rng, tier):
             if n != SSIZE_MAX:
                 yield 'ep.get %d %s l: %d' % (oc, hexs(stream[:4]), n)
                 yield 'ep.put %d %s l: %d' % (oc, hexs(stream[:4]), n)
+    # plumbing: every pair of short scripts on both sides, all four driver-style combinations
+    L2 = 2 if big else 1
+    for ns in range(0, L2 + 1):
+        for ss in itertools.product(EV, repeat=ns):
+            for nk in range(0, 3):
+                for ks in itertools.product(EV, repeat=nk):
+                    so, ko = rng.randrange(2), rng.randrange(2)
+                    st = stream[:rng.choice([2, 3, 4])]
+                    yield 'ep.ncbc %d %s %s %d %s %d' % (so, hexs(st), lst(ss), ko, lst(ks), rng.randrange(1, 5))
+                    yield 'ep.stsn %d %s %s %d %s %d' % (so, hexs(st), lst(ss), ko, lst(ks), rng.randrange(1, 5))
+                    yield 'ep.naux %d %s %s %d %s %d %d' % (so, hexs(st), lst(ss), ko, lst(ks), rng.choice([1, 2, 3]), rng.randrange(1, 5))
+                    if nk <= 1:
+                        yield 'ep.cbc %d %s %s %d %s' % (1 - so, hexs(st), lst(ss), 1 - ko, lst(ks))
+                        yield 'ep.draincbc %d %s %s %d %s' % (so, hexs(st), lst(ss), 1 - ko, lst(ks))
+                        yield 'ep.drainaux %d %s %s %d %s %d' % (1 - so, hexs(st), lst(ss), ko, lst(ks), rng.choice([1, 2, 3]))
     def rscript(alpha, maxlen=10):
         return [rng.choice(alpha) for _ in range(rng.randrange(0, maxlen + 1))]
     for _ in range(20000 if big else 2500):
@@ -62,7 +77,7 @@ def gen(rng, tier):
         if op == 'put':
             yield 'ep.put %d %s %s %d' % (ko, hexs(st or [1]), lst(rscript(EV)), len(st or [1])); continue
         if op in ('cbc', 'ncbc', 'draincbc', 'stsn', 'stsdrain'):
-            ss, ks = rscript(EV_NOZERO, 6), rscript(EV_NOZERO, 6)
+            ss, ks = rscript(EV, 6), rscript(EV, 6)
             if op == 'cbc' or op.endswith('drain') or op == 'draincbc':
                 yield 'ep.%s %d %s %s %d %s' % (op, so, hexs(st), lst(ss), ko, lst(ks))
             else:
